@@ -35,6 +35,8 @@ VALUE_NAMES = (
 )
 
 TRACE_FILES = ("solver/runner.py", "solver/solver.py", "finite_volume/operators.py")
+# for guests scheduled at "the n-th line executed by the library in this stage", whatever the function
+TRACE_FILES_ANY = TRACE_FILES + ("solution/data.py", "tdgl/parameter.py", "finite_volume/util.py", "solver/screening.py")
 # functions whose line events are pre-emption points, grouped by the region of the
 # property text they belong to ("update" / "writer" / other)
 TRACE_FUNCS = {
@@ -241,6 +243,10 @@ class Sim:
         for g in self.guests:
             g["_fired"] = False
             g["_seen"] = 0
+        self._line_guests = [g for g in self.guests if g["at"].get("point") == "line" and g["at"].get("func") != "*"]
+        self._any_line_guests = [g for g in self.guests if g["at"].get("point") == "line" and g["at"].get("func") == "*"]
+        self._any_lines = 0
+        self._within = None  # "psi" | "screen" | "refresh" | "writer": the seam whose real code is executing
 
     # ----------------------------------------------------------------------------------
     def add_violation(self, v):
@@ -309,7 +315,7 @@ class Sim:
         what = g.get("what", {})
         h.ev("guest", tag, what.get("mode", "same"))
         h.probe("guest:" + g["at"]["point"])
-        h.guests_fired.append({"at": dict(g["at"]), "what": dict(what), "tag": tag, "in_update": self.cur is not None})
+        h.guests_fired.append({"at": {k: v for k, v in g["at"].items() if not k.startswith("_")}, "what": dict(what), "tag": tag, "in_update": self.cur is not None})
         names = ("DataHandler", "Runner", "h5py", "tempfile", "subprocess", "input")
         swapped = []
         for obj, name, old, had in self._patches:
@@ -341,6 +347,10 @@ class Sim:
                 if what.get("terminal_psi", "same") != "same":
                     opts.terminal_psi = what["terminal_psi"]
                 drive = self.scn["drive"]
+                cur_spec = drive.get("currents")
+                if what.get("currents_scale") is not None:
+                    cur_spec = B.scale_current_spec(cur_spec, what["currents_scale"])  # another point of a current sweep
+                eps_spec = what["epsilon"] if "epsilon" in what else drive.get("epsilon")
                 if what.get("field", "shared") == "shared":
                     field = self.A_obj  # the very object the run under test evaluates (Parameter caches included)
                 else:
@@ -349,8 +359,8 @@ class Sim:
                     h.device,
                     opts,
                     applied_vector_potential=field,
-                    terminal_currents=B.build_currents(drive.get("currents")),
-                    disorder_epsilon=B.build_epsilon(drive.get("epsilon")),
+                    terminal_currents=B.build_currents(cur_spec),
+                    disorder_epsilon=B.build_epsilon(eps_spec),
                 )
             try:
                 solver.solve()
@@ -407,19 +417,53 @@ class Sim:
         fn = code.co_filename
         if code.co_name in TRACE_FUNCS and fn.endswith(TRACE_FILES):
             return self._local_trace
+        if self._any_line_guests and fn.endswith(TRACE_FILES_ANY):
+            return self._local_trace_any
         return None
+
+    def _any_line(self, frame):
+        """One more line of library code executed in the current stage: guests scheduled by line count."""
+        if self.stage is None or self._in_oracle:
+            return
+        self._any_lines += 1
+        for g in self._any_line_guests:
+            if g["_fired"] or g["at"].get("stage", self.stage) != self.stage:
+                continue
+            w_ = g["at"].get("within")
+            if w_ is not None and w_ != self._within:
+                continue
+            n = g["_seen"]
+            g["_seen"] = n + 1
+            if g["at"]["ordinal"] == n:
+                g["_fired"] = True
+                self.h.probe("guestloc:%s:%d" % (frame.f_code.co_name, frame.f_lineno))
+                self._run_guest(g, f"line:*#{n}:{frame.f_code.co_name}:L{frame.f_lineno}")
+
+    def _local_trace_any(self, frame, event, arg):
+        if event == "line":
+            self._any_line(frame)
+        return self._local_trace_any
 
     def _local_trace(self, frame, event, arg):
         if event != "line":
             return self._local_trace
         name = frame.f_code.co_name
         key = name
+        if self._any_line_guests:
+            self._any_line(frame)
         n = self._line_counts.get(key, 0)
         self._line_counts[key] = n + 1
         fired_before = bool(self.h.faults_fired)
         if fired_before:
             m = self._line_counts_after.get(key, 0)
             self._line_counts_after[key] = m + 1
+        if self._line_guests:
+            for g in self._line_guests:
+                if not g["_fired"] and g["at"]["func"] == name and g["at"]["ordinal"] == n and g["at"].get("stage", self.stage) == self.stage:
+                    g["_fired"] = True
+                    g["at"]["_lineno"] = frame.f_lineno
+                    self.h.probe("guestloc:%s:%d" % (name, frame.f_lineno))
+                    self._run_guest(g, f"line:{name}#{n}:L{frame.f_lineno}")
         lf = self._line_fault
         if lf is not None and not lf["_fired"]:
             at = lf["at"]
@@ -606,10 +650,13 @@ class Sim:
                 h.ev("frame", rec["number"], step, repr(rec["time"]), digest_arrays(*[rec["data"][k] for k in sorted(rec["data"])]))
                 sim.fault_at("save.before", step)
                 rec["open"] = True
+                prev_w = sim._within
+                sim._within = "writer"
                 try:
                     r = super().save_time_step(state, data, running_state)
                 finally:
                     rec["open"] = False
+                    sim._within = prev_w
                 rec["completed"] = True
                 sim._call_checkers("on_frame", rec)
                 sim.fault_at("save.after", step)
@@ -671,7 +718,12 @@ class Sim:
                 rec["injected"] = True
                 rec["result"] = None
             else:
-                rec["result"] = real_psi(**kw)
+                prev_w = sim._within
+                sim._within = "psi"
+                try:
+                    rec["result"] = real_psi(**kw)
+                finally:
+                    sim._within = prev_w
             rec["refused"] = rec["result"] is None
             if cur is not None:
                 cur["attempts"].append((rec["dt"], rec["refused"], rec["injected"], cur["n_screen"]))
@@ -691,7 +743,12 @@ class Sim:
                 "A_prev": np.array(A_induced_vals[-1], copy=True),
             }
             sim.fault_at("screen", rec["step"])
-            A, err = real_giv(current_density, A_induced_vals, velocity)
+            prev_w = sim._within
+            sim._within = "screen"
+            try:
+                A, err = real_giv(current_density, A_induced_vals, velocity)
+            finally:
+                sim._within = prev_w
             rec["A_new"] = np.array(A, copy=True)
             rec["kernel_out"] = np.array(solver.new_A_induced, copy=True)
             rec["err"] = err
@@ -714,7 +771,12 @@ class Sim:
                 "first": ops.psi_gradient is None,
             }
             sim.fault_at("refresh.before", rec["step"])
-            r = real_sle(link_exponents)
+            prev_w = sim._within
+            sim._within = "refresh"
+            try:
+                r = real_sle(link_exponents)
+            finally:
+                sim._within = prev_w
             if sim.cur is not None:
                 sim.cur["n_refresh"] += 1
             h.ev("refresh", rec["step"], digest_arrays(rec["arg"]))
@@ -826,7 +888,23 @@ class Sim:
         if getattr(self, "device_object", None) is not None:
             # the caller continues with a Device object it already holds (and may have edited in place)
             return self.device_object
-        device = B.build_device(dev_spec, mesh_from=self.mesh_from, history=scn.get("device_history"))
+        shared = scn.get("mesh_shared_with_wellposed")
+        if shared:
+            # device life cycle: the device under test re-uses the mesh of a sibling device that differs from it
+            # only in its terminals (the mesh depends on film and holes alone) and that was looked at / used first
+            import copy as _copy
+
+            good_spec = _copy.deepcopy(dev_spec)
+            for t_ in good_spec["terminals"]:
+                t_.pop("inside", None)
+            good = B.build_device(good_spec, mesh_from=self.mesh_from)
+            good.terminal_info()
+            if shared.get("used"):
+                self._prior_use(good, {"steps": 2, "B": 0.1, "terminal_psi": "zero"})
+            device = B.build_device(dev_spec, mesh_from=good.mesh)
+            h.probe("mesh_shared_with_sibling_device")
+        else:
+            device = B.build_device(dev_spec, mesh_from=self.mesh_from, history=scn.get("device_history"))
         self.base_mesh = device.mesh  # the dimensionless mesh before any life cycle touched the device
         used = scn.get("device_used_before") or scn.get("env", {}).get("device_used_before")
         if used:
@@ -1125,7 +1203,7 @@ class Sim:
             for f in self.faults:
                 if f["kind"] in ("exc", "sigint", "enospc", "mem") and f["at"].get("point") == "line":
                     self._line_fault = f
-            if self.trace_mode or self._line_fault is not None:
+            if self.trace_mode or self._line_fault is not None or self._line_guests or self._any_line_guests:
                 sys.settrace(self._global_trace)
             seed_snap = None
             if self.seed_solution is not None:
